@@ -1,5 +1,6 @@
 //! gv — the conformance harness: drives the real grenad (path dependency on /repo, built with
 //! --cfg grenad_verif) and records one ndjson event per public call. TLC validates the traces.
+mod alloc;
 mod cursor;
 mod decode;
 mod faults;
@@ -15,6 +16,9 @@ mod util;
 mod varint;
 
 use std::path::PathBuf;
+
+#[global_allocator]
+static GLOBAL: alloc::Monitor = alloc::Monitor;
 use util::*;
 
 fn family_stream(family: &str) -> u64 {
@@ -54,6 +58,12 @@ fn run_scenario(out: &mut TraceOut, family: &str, seed: u64, idx: u64, heavy: bo
         "framing" => cursor::scn_framing(out, &mut r, idx, heavy),
         "wsched" => sched::scn_wsched(out, &mut r, idx, heavy),
         "faults" => faults::scn_faults(out, &mut r, idx, heavy),
+        "alloc" => sorter::scn_alloc(out, &mut r, idx, heavy),
+        "alloc_readers" => {
+            let scratch = out.dir().join("scratch");
+            cursor::scn_alloc_readers(out, &mut r, idx, heavy, &scratch);
+            let _ = std::fs::remove_dir_all(&scratch);
+        }
         "format" => layout::scn_format(out, &mut r, idx, heavy),
         "cut" => layout::scn_cut(out, &mut r, idx, heavy),
         "unsorted" => layout::scn_unsorted(out, &mut r, idx, heavy),
